@@ -674,6 +674,20 @@ def run_refine(seed, n):
             sk['tok'].set_return_set(True)
             call = dict(call, L=sk['L'], R=sk['R'], names=sk['names'], tok=sk['tok'], kind='ws', t=t, tcls='skew-edge',
                         q=0)
+        elif call['measure'] in JCD + ('OVERLAP',) and rng.random() < 0.5:
+            # order-sensitive stream: tiny alphabet, short prefixes (high threshold), several right rows
+            # and n_jobs >= 2 -- the per-chunk token order differs from the whole-table order
+            import pandas as pd
+            import py_stringmatching as sm
+            alpha = list('abcdefg')[:rng.randint(4, 7)]
+            mk = lambda: ' '.join(rng.sample(alpha, rng.randint(1, len(alpha))))
+            lrows = [mk() for _ in range(rng.randint(2, 4))]
+            rrows = [mk() for _ in range(rng.randint(3, 7))]
+            Lx = pd.DataFrame({'id': range(1, len(lrows) + 1), 's': pd.Series(lrows, dtype=object)})
+            Rx = pd.DataFrame({'id': range(1, len(rrows) + 1), 's': pd.Series(rrows, dtype=object)})
+            t = rng.choice([1, 2, 3]) if call['measure'] == 'OVERLAP' else rng.choice([0.5, 0.6, 0.7, 0.75, 0.8, 0.9])
+            call = dict(call, L=Lx, R=Rx, names=('id', 's', 'id', 's'), tok=sm.WhitespaceTokenizer(return_set=True),
+                        kind='ws', t=t, tcls='order-sensitive', q=0, njobs=rng.choice([2, 2, 3]))
         m = call['measure']
         names = call['names']
         nj = call['njobs']
